@@ -203,6 +203,7 @@ class FullscreenWindow(BaseWindow, ContextManager["FullscreenWindow"]):
         for row, line in enumerate(array):
             if row >= height:
                 break  # array too tall: render only the renderable portion
+            line = line[:width]  # row too wide: render only the renderable portion
             current_lines_by_row[row] = line
             if line == self._last_lines_by_row.get(row, None):
                 continue
